@@ -57,6 +57,19 @@ CHECKS.update({
          "DESIGN.md §4 C19"),
 })
 
+CHECKS.update({
+ "C03": ("exploration",
+         "deterministic simulation with a faulty transport between honest signers and the chain: duplication (same block / later block / after node restart), reordering (future sequence first), delay, loss, single-field corruption in flight with the signature left as is (13 Ethereum fields, 16 Cosmos/EIP-712 fields), cross-chain replay, unprotected signatures, byzantine proposer (no CheckTx); exactly-once/authenticity oracle over the delivered history",
+         "Every delivered byte string is attributed to an honestly signed element (account, signed sequence, chain id) plus the transport fault applied; a fingerprint of all known accounts (sequence, balance) and the fee collector is taken around every DeliverTx. A replayed, corrupted, foreign-chain or unprotected variant must have no effect; an accepted element must carry exactly the account's current sequence and bump it by one; at the end every account's sequence advance equals the number of its accepted elements.",
+         "A corrupted Ethereum tx recovers to a different (random) sender by construction of ECDSA recovery, so for that route the oracle requires 'no known account affected' rather than a non-zero code; the sign mode of EIP-712-signed Cosmos txs is not part of the signed typed data and is not counted as a signed field.",
+         "DESIGN.md §4 C03"),
+ "C07": ("exploration",
+         "deterministic simulation: seeded Ethereum (3 types, multi-message, revert/out-of-gas/refund/creation targets) and Cosmos txs with prices drawn around min-gas-price and base fee (+-1), governance changing fee-market params mid-run, delayed inclusion against a moved base fee, byzantine proposer, restart; per-tx money-flow identity against an independently computed effective price",
+         "Around every DeliverTx the sender's and the fee collector's balances and the account sequence are read. A tx below the fee floor or with a fee cap below the base fee must have no effect; an executed Ethereum tx must satisfy floor(multiplier x limit) <= gasUsed <= limit, exact gas for plain transfers, sender delta = fee-collector delta (+ value) = gasUsed x effectiveGasPrice with the price recomputed from (type, cap, tip, base fee), and DeliverTx GasUsed = sum of message gas.",
+         "Senders hold no delegations (the claim-rewards-to-pay-fees path is not part of the exact identity); with the base fee disabled both readings of a dynamic-fee tx's effective price are accepted.",
+         "DESIGN.md §4 C07"),
+})
+
 NOT_YET = {}  # id -> reason (filled below)
 NA = {
  "C18": "pure function of one input (wrap -> encode -> decode -> unwrap of one Ethereum tx): no schedule, clock, fault, crash or second party can change its result, so deterministic simulation with fault injection has nothing to decide; see DESIGN.md §4 C18",
